@@ -352,6 +352,23 @@ func (p *parser) processDeclarations(rules []css_ast.Rule, composesContext *comp
 			if p.options.minifySyntax {
 				borderRadius.mangleCorner(rewrittenRules, decl, p.options.minifyWhitespace, borderRadiusBottomLeft)
 			}
+
+		default:
+			// Logical properties such as "margin-block-start" and "inset-inline" set
+			// the same sides as the physical properties (which ones depends on the
+			// writing mode), so physical sides must not be merged across them
+			if p.options.minifySyntax {
+				switch key := strings.ToLower(decl.KeyText); {
+				case strings.HasPrefix(key, "margin-"):
+					margin.sides = [4]boxSide{}
+				case strings.HasPrefix(key, "padding-"):
+					padding.sides = [4]boxSide{}
+				case strings.HasPrefix(key, "inset-"):
+					inset.sides = [4]boxSide{}
+				case strings.HasPrefix(key, "border-") && strings.HasSuffix(key, "-radius"):
+					borderRadius.corners = [4]borderRadiusCorner{}
+				}
+			}
 		}
 
 		if prefixes, ok := p.options.cssPrefixData[decl.Key]; ok {
